@@ -31,6 +31,8 @@ func (w *World) evictBurst(in *Instance) {
 	// anything that depends on it (roots, indexes)
 	sim.Mute(true)
 	defer sim.Mute(false)
+	w.noYield = true
+	defer func() { w.noYield = false }()
 	if pend, _ := in.log.VerifPool(); pend != 0 {
 		// wait for a fresh pool
 		time.Sleep(in.untilNextTick())
